@@ -184,7 +184,28 @@ def m3_table(ctx):
     ctx.rule('M3', 'arithmetic table of money', floor=6)
     b = ctx.facts.one(r'^<compiler::money::MoneyItem as compiler::DataItem>::calculate$')
     ctx.fn(b)
-    check_binop_table(ctx, b, 'M3', None, True)
+    raw = check_binop_table(ctx, b, 'M3', None, True)
+    # what enters the arithmetic when the other operand is money: on every path the converted amount, never the raw one
+    seen_money = 0
+    for variant in sorted(raw):
+        for l, r in raw[variant]:
+            for a, conds in alternatives(b, r):
+                cs = [cond_str(d, v) for d, v in resolve_conds(b, conds)]
+                if not any(x.startswith('on_left') and x.endswith('!=[0]') for x in cs):
+                    continue
+                kinds = [(m.group(1), x.endswith('!=[0]')) for x in cs for m in [re.search(r'type_name\(other\), ("[^"]*")\)', x)] if m]
+                if any((k == '"MONEY"') != pos for k, pos in kinds if pos or k == '"MONEY"') or not any(k == '"MONEY"' for k, _ in kinds):
+                    continue
+                seen_money += 1
+                txt = render(a)
+                if re.match(r'MoneyItem::convert_currency\(self, config, ', txt) and 'other' in txt:
+                    ctx.ok('M3', '%s, other is money: right operand = convert_currency(self, config, other)' % variant, 'gamma', site=b.loc, sample=False)
+                else:
+                    extra = [x for x in cs if 'MONEY' not in x and not x.startswith('on_left') and 'operation_type' not in x]
+                    ctx.finding('M3', 'calculate/%s/money-arm-unconverted' % variant,
+                                'money %s money: on the path where %s the right operand enters as %s, not converted through the rate table' % (variant, ' and '.join(extra[-2:]) or '?', txt[:100]), site=b.loc)
+    if not seen_money:
+        raise AnchorLost('MoneyItem::calculate: no arithmetic operand found under the "MONEY" arm')
     cc = list(b.calls(r'MoneyItem::convert_currency$'))
     if len(cc) != 1:
         raise AnchorLost('MoneyItem::calculate: expected one convert_currency call, found %d' % len(cc))
